@@ -113,11 +113,26 @@ def ensure_gen_built() -> str | None:
     return None
 
 
+def run_driver_parallel(lines: list[str], procs: int) -> list[str]:
+    """The driver of C18 is stateless (one independent request per line) and interpreted: long batches are cut into
+    `procs` contiguous chunks answered by as many driver processes; the answers keep the order of the lines."""
+    if procs <= 1 or len(lines) < 200:
+        return common.run_lean_driver(PID, lines)
+    from concurrent.futures import ThreadPoolExecutor
+
+    size = (len(lines) + procs - 1) // procs
+    chunks = [lines[i : i + size] for i in range(0, len(lines), size)]
+    with ThreadPoolExecutor(max_workers=len(chunks)) as ex:
+        parts = list(ex.map(lambda c: common.run_lean_driver(PID, c), chunks))
+    return [a for part in parts for a in part]
+
+
 class Corr:
     """Collects protocol lines with the observations of the real code, then runs the driver and compares."""
 
-    def __init__(self) -> None:
+    def __init__(self, procs: int = 1) -> None:
         self.items: list[tuple[str, Callable[[str], str | None], dict[str, Any]]] = []
+        self.procs = procs  # driver processes per flush (every protocol line of C18 is stateless)
 
     def add(self, line: str, compare: Callable[[str], str | None] | tuple, context: dict[str, Any]) -> None:
         """`compare` is a callable or a picklable *spec* `(kind, *args)` (see `make_compare`), so that the lines
@@ -132,7 +147,7 @@ class Corr:
         if not self.items:
             return
         lines = [it[0] for it in self.items]
-        answers = common.run_lean_driver(PID, lines)
+        answers = run_driver_parallel(lines, self.procs)
         for (line, compare, ctx), ans in zip(self.items, answers):
             res.evaluations += 1
             res.count("driver:" + line.split(" ", 1)[0])
